@@ -111,7 +111,7 @@ def check_layer_ab(pid, tier, seed, rep):
     import stage_s, stage_d
     cov = prove(pid, rep)
     S = stage_s.stage(seed, tier)
-    bad = static_part(pid, rep, S, {"items", "surface"} if pid in ("C06", "C07", "C08") else {"items"}, cov)
+    bad = static_part(pid, rep, S, {"items", "surface"} if pid in ("C06", "C07", "C08") else {"items", "value"} if pid == "C02" else {"items"}, cov)
     D = stage_d.stage(seed, tier)
     mine = [f for f in D["findings"] if f["prop"] == pid]
     viol = [f for f in mine if f["verdict"] == "violation"]
